@@ -683,6 +683,18 @@ pub unsafe extern "C" fn haystack_value_make_tz_datetime(
     } {
         match CStr::from_ptr(tz).to_str() {
             Ok(tz) => match make_date_time_with_tz(&datetime.with_timezone(&Utc.fix()), tz) {
+                // chrono panics when asked for the local time of a value whose local time is out of its range
+                Ok(datetime)
+                    if datetime
+                        .naive_utc()
+                        .checked_add_signed(chrono::Duration::seconds(
+                            datetime.offset().fix().local_minus_utc() as i64,
+                        ))
+                        .is_none() =>
+                {
+                    new_error("DateTime out of range");
+                    None
+                }
                 Ok(datetime) => Some(Box::new(Value::DateTime(datetime.into()))),
                 Err(err) => {
                     new_error(&err);
